@@ -46,7 +46,7 @@ import (
 )
 
 type c07eGrant struct {
-	User  int `json:"user"`  // 0 alice, 1 bob
+	User  int `json:"user"`  // index into c07eUsers: 0 alice, 1 bob, 2 Alice, 3 Bob (user^2 = the name that differs by case only)
 	Key   int `json:"key"`   // 0..3
 	Type  int `json:"type"`  // 0 shell, 1 command, 2 local PF, 3 remote PF
 	Cmd   int `json:"cmd"`   // command text index
@@ -55,11 +55,13 @@ type c07eGrant struct {
 }
 
 type c07eReq struct {
-	Kind  int `json:"kind"` // 0 exec command, 1 exec with shell flag, 2 local port forward, 3 issue a shell grant for itself, 4 remote port forward, 5 open a port-forward DATA tube and write to it
+	Kind  int `json:"kind"` // 0 exec command, 1 exec with shell flag, 2 local port forward, 3 issue a shell grant for itself, 4 remote port forward, 5 open a port-forward DATA tube and write to it, 6 port-forward control request with the drawn direction and network-type bytes
 	Cmd   int `json:"cmd"`
 	Var   int `json:"var"`            // text variant: 0 exact, 1 prefix, 2 suffix, 3 other case, 4 extra blank; kind 5: odd = unreliable tube
 	WaitS int `json:"wait"`           // seconds to let pass before the request
-	HoldS int `json:"hold,omitempty"` // kinds 0,1,2,4: seconds to let pass AFTER the tubes of the request were opened and BEFORE its body is sent
+	HoldS int `json:"hold,omitempty"` // kinds 0,1,2,4,6: seconds to let pass AFTER the tubes of the request were opened and BEFORE its body is sent
+	Dir   int `json:"dir,omitempty"`  // kind 6: direction byte of the control message (the protocol defines 4 = local, 5 = remote)
+	Net   int `json:"net,omitempty"`  // kind 6: network-type byte (the protocol defines 1 tcp, 2 udp, 3 unix); the address is always a unix path
 }
 
 type c07eCase struct {
@@ -72,7 +74,7 @@ type c07eCase struct {
 }
 
 var c07eCmds = []string{"ls", "cat /etc/motd", "true", "uname -a"}
-var c07eUsers = []string{"alice", "bob"}
+var c07eUsers = []string{"alice", "bob", "Alice", "Bob"} // distinct accounts; index^2 differs by case only
 
 func c07eText(cmd, variant int) string {
 	base := c07eCmds[cmd%len(c07eCmds)]
@@ -229,12 +231,12 @@ func c07eScenario(c c07eCase, tg *c07eTarget, v *vlib.Verdict) {
 	go func() { tr.Serve(); close(serveDone) }()
 	defer func() { tr.Close(); <-serveDone }()
 	z := verifAuthzNewServerExt(tr, ks, c.Enabled)
-	user := c07eUsers[c.User%2]
+	user := c07eUsers[c.User%len(c07eUsers)]
 	// ---- grants (stored the way a target stores them) and the model
 	var model []*c07eModelGrant
 	for _, g := range c.Grants {
 		gt := []authgrants.GrantType{authgrants.Shell, authgrants.Command, authgrants.LocalPF, authgrants.RemotePF}[g.Type%4]
-		in := verifAuthzIntent(c07eUsers[g.User%2], g.Key%verifAuthzNKeys, gt, c07eText(g.Cmd, 0), verifAuthzAt(g.Start), verifAuthzAt(g.Exp))
+		in := verifAuthzIntent(c07eUsers[g.User%len(c07eUsers)], g.Key%verifAuthzNKeys, gt, c07eText(g.Cmd, 0), verifAuthzAt(g.Start), verifAuthzAt(g.Exp))
 		if err := z.S.AddAuthGrant(in); err == nil {
 			model = append(model, &c07eModelGrant{g: g})
 		}
@@ -247,7 +249,7 @@ func c07eScenario(c c07eCase, tg *c07eTarget, v *vlib.Verdict) {
 	// which stored grants belong to (user, key)?
 	var mine []*c07eModelGrant
 	for _, m := range model {
-		if c07eUsers[m.g.User%2] == user && m.g.Key%verifAuthzNKeys == c.Key%verifAuthzNKeys {
+		if c07eUsers[m.g.User%len(c07eUsers)] == user && m.g.Key%verifAuthzNKeys == c.Key%verifAuthzNKeys {
 			mine = append(mine, m)
 		}
 	}
@@ -392,6 +394,12 @@ func c07eScenario(c c07eCase, tg *c07eTarget, v *vlib.Verdict) {
 					if m.g.Type%4 == 3 {
 						match = m
 					}
+				case 6:
+					// a forwarding is local (direction 4) or remote (direction 5) and needs a grant of exactly that
+					// type; any other direction byte names no action a grant type exists for
+					if byte(rq.Dir) == 4 && m.g.Type%4 == 2 || byte(rq.Dir) == 5 && m.g.Type%4 == 3 {
+						match = m
+					}
 				}
 				if match != nil {
 					break
@@ -425,6 +433,9 @@ func c07eScenario(c c07eCase, tg *c07eTarget, v *vlib.Verdict) {
 			// request (that answer is the authorization decision), then fails to listen and gives up, so nothing blocks
 			what = "remote port forward"
 			allowed, answered = c07ePF(mux, 5, tg.path, hold)
+		case 6:
+			what = fmt.Sprintf("port-forward control request with direction byte %d, network-type byte %d", byte(rq.Dir), byte(rq.Net))
+			allowed, answered = c07ePFRaw(mux, c07ePFBytesNet(byte(rq.Net), byte(rq.Dir), tg.path), hold)
 		case 3:
 			what = "issue a shell grant for itself"
 			judge()
@@ -449,7 +460,22 @@ func c07eScenario(c c07eCase, tg *c07eTarget, v *vlib.Verdict) {
 		}
 		reached := n - seen
 		seen = n
-		kind := []string{"exec-command", "exec-shell", "port-forward", "grant-issuing", "remote-port-forward", "port-forward-data-tube"}[rq.Kind]
+		kind := []string{"exec-command", "exec-shell", "port-forward", "grant-issuing", "remote-port-forward", "port-forward-data-tube", "port-forward-undefined-direction"}[rq.Kind]
+		localFwd := rq.Kind == 2 // a control request for a LOCAL forwarding towards the harness's target socket
+		if rq.Kind == 6 {
+			switch byte(rq.Dir) {
+			case 4:
+				kind, localFwd = "port-forward", true
+			case 5:
+				kind = "remote-port-forward"
+			}
+			if n := byte(rq.Net); n < 1 || n > 3 {
+				kind += ":undefined-network-type"
+			} else if n != 3 {
+				kind += ":address-not-of-the-network-type"
+			}
+			v.Labelf("pf-control-bytes:dir=%d,net=%d", byte(rq.Dir), byte(rq.Net))
+		}
 		if rq.Kind == 5 {
 			allowed = reached > 0
 		}
@@ -457,7 +483,7 @@ func c07eScenario(c c07eCase, tg *c07eTarget, v *vlib.Verdict) {
 			v.Failf("C07:e2e:action-allowed-without-matching-grant:"+kind, "request %d (%s) at t=%ds in a session admitted through grants %+v was ALLOWED although no effective, unused, matching grant exists", ri, what, t, c.Grants)
 			return
 		}
-		if rq.Kind == 2 && answered && allowed {
+		if localFwd && answered && allowed {
 			if edge {
 				fwdUnknown = true
 			} else {
@@ -486,7 +512,7 @@ func c07eScenario(c c07eCase, tg *c07eTarget, v *vlib.Verdict) {
 			}
 			continue
 		}
-		if rq.Kind == 2 {
+		if localFwd {
 			if allowed {
 				lastControl = "after-granted-control-request"
 			} else {
@@ -561,13 +587,16 @@ func c07eExec(mux *tubes.Muxer, cmd string, shell bool, hold func()) (allowed, a
 }
 
 func c07ePF(mux *tubes.Muxer, fwdType byte, target string, hold func()) (allowed, answered bool) {
+	return c07ePFRaw(mux, c07ePFBytes(fwdType, target), hold)
+}
+
+// c07ePFRaw opens a port-forward control tube, sends the control message msg and reads the answer byte.
+func c07ePFRaw(mux *tubes.Muxer, msg []byte, hold func()) (allowed, answered bool) {
 	ctl, err := mux.CreateReliableTube(common.PFControlTube)
 	if err != nil {
 		return false, false
 	}
 	defer ctl.Close()
-	// control message: net type (unix = 3?) | forward type | addr len | addr — built by the package's own encoder
-	msg := c07ePFBytes(fwdType, target)
 	hold() // the control tube is open; now (perhaps later) the request itself
 	ctl.Write(msg)
 	b, ok := c07eReadByte(ctl)
@@ -651,7 +680,7 @@ func c07eRun(t *testing.T) func(c c07eCase, v *vlib.Verdict) {
 }
 
 func c07eGen(t *rapid.T) c07eCase {
-	c := c07eCase{User: rapid.IntRange(0, 1).Draw(t, "user"), Key: rapid.IntRange(0, 1).Draw(t, "key")}
+	c := c07eCase{User: rapid.SampledFrom([]int{0, 0, 1, 1, 2, 3}).Draw(t, "user"), Key: rapid.IntRange(0, 1).Draw(t, "key")}
 	c.Enabled = rapid.SampledFrom([]bool{true, true, true, false}).Draw(t, "enabled")
 	c.InFile = rapid.SampledFrom([]bool{false, false, false, false, true}).Draw(t, "inFile")
 	c.Grants = rapid.SliceOfN(rapid.Custom(func(t *rapid.T) c07eGrant {
@@ -660,8 +689,11 @@ func c07eGen(t *rapid.T) c07eCase {
 		g.User = c.User
 		g.Key = c.Key
 		if rapid.IntRange(0, 5).Draw(t, "other") == 0 {
-			g.User = rapid.IntRange(0, 1).Draw(t, "guser")
+			g.User = rapid.IntRange(0, len(c07eUsers)-1).Draw(t, "guser")
 			g.Key = rapid.IntRange(0, 2).Draw(t, "gkey")
+			if rapid.IntRange(0, 1).Draw(t, "near") == 0 {
+				g.User, g.Key = c.User^2, c.Key // the connecting key, for the account whose name differs by case only
+			}
 		}
 		g.Start = rapid.SampledFrom([]int{-100, -100, -100, 20, 500}).Draw(t, "start")
 		g.Exp = rapid.SampledFrom([]int{1000, 1000, 1000, 30, -10}).Draw(t, "exp")
@@ -670,14 +702,18 @@ func c07eGen(t *rapid.T) c07eCase {
 	nreq := rapid.IntRange(1, 5).Draw(t, "nreq")
 	for i := 0; i < nreq; i++ {
 		rq := c07eReq{
-			Kind:  rapid.SampledFrom([]int{0, 0, 0, 1, 2, 2, 3, 4, 4, 5}).Draw(t, "kind"),
+			Kind:  rapid.SampledFrom([]int{0, 0, 0, 1, 2, 2, 3, 4, 4, 5, 6, 6}).Draw(t, "kind"),
 			Cmd:   rapid.IntRange(0, 2).Draw(t, "cmd"),
 			Var:   rapid.SampledFrom([]int{0, 0, 0, 1, 2, 3, 4}).Draw(t, "var"),
 			WaitS: rapid.SampledFrom([]int{0, 0, 0, 5, 40}).Draw(t, "wait"),
 			HoldS: rapid.SampledFrom([]int{0, 0, 0, 0, 12, 40}).Draw(t, "hold"),
 		}
+		if rq.Kind == 6 {
+			rq.Dir = rapid.SampledFrom([]int{0, 1, 3, 6, 99, 255, 4, 5}).Draw(t, "dir")
+			rq.Net = rapid.SampledFrom([]int{3, 3, 3, 3, 3, 1, 2, 0, 4, 255}).Draw(t, "net")
+		}
 		// a data tube most often follows a control request (granted or refused), but also comes out of the blue (above)
-		if i > 0 && c.Reqs[i-1].Kind == 2 && rapid.IntRange(0, 2).Draw(t, "data-after-control") != 0 {
+		if i > 0 && (c.Reqs[i-1].Kind == 2 || c.Reqs[i-1].Kind == 6) && rapid.IntRange(0, 2).Draw(t, "data-after-control") != 0 {
 			rq.Kind = 5
 		}
 		c.Reqs = append(c.Reqs, rq)
@@ -685,10 +721,11 @@ func c07eGen(t *rapid.T) c07eCase {
 	return c
 }
 
-// c07eID: the same end-to-end test serves C07 (what a grant session may do) and C05 (who may log in).
+// c07eID: the same end-to-end test serves C07 (what a grant session may do) and C05 (who may log in); the
+// concurrent unit also serves C06 (a confirmed grant is a stored grant).
 func c07eID() string {
-	if id := vlib.GetEnv().ID; id == "C05" {
-		return "C05"
+	if id := vlib.GetEnv().ID; id == "C05" || id == "C06" {
+		return id
 	}
 	return "C07"
 }
@@ -704,12 +741,18 @@ const c07ePFSuccess = 1 // portforwarding: failure = 0, success = 1
 
 // c07ePFBytes: control message for a LOCAL forward to the harness's unix socket
 // (net type 3 = unix, forward type 4 = local, 16-bit address length, address).
-func c07ePFBytes(fwdType byte, target string) []byte {
+func c07ePFBytes(fwdType byte, target string) []byte { return c07ePFBytesNet(3, fwdType, target) }
+
+// c07ePFBytesNet: the same with any network-type and direction byte. Only the local direction (4) names the
+// harness's socket; every other direction names a path in a directory that does not exist, so a server that
+// (rightly or wrongly) goes on to listen fails at once and nothing blocks. The address is a unix path whatever
+// the network-type byte says: for the tcp / udp types it is not a host:port pair and the request is malformed.
+func c07ePFBytesNet(netType, fwdType byte, target string) []byte {
 	addr := target
-	if fwdType == 5 {
+	if fwdType != 4 {
 		addr = "/nonexistent-verif-c07/remote.sock"
 	}
-	msg := []byte{3, fwdType}
+	msg := []byte{netType, fwdType}
 	msg = binary.BigEndian.AppendUint16(msg, uint16(len(addr)))
 	return append(msg, addr...)
 }
